@@ -484,9 +484,30 @@ func r18bNoSharedStoragePerLevel(c *core.Ctx) {
 							bad += fmt.Sprintf("backed by a buffer allocated outside the per-level loop (%s @%s); ", x.String(), c.P.Pos(x.Pos()))
 						}
 					case *ssa.Alloc:
-						if !inLoop(x) && x.Heap {
-							bad += fmt.Sprintf("backed by memory allocated outside the per-level loop (%s @%s); ", x.String(), c.P.Pos(x.Pos()))
+						if !inLoop(x) {
+							bad += fmt.Sprintf("taken from a variable that outlives the loop iteration (%s @%s), so its backing array is reused for another level; ", x.Comment, c.P.Pos(x.Pos()))
 						}
+						// a local array/struct of buffers: what was stored into it
+						var stores func(base ssa.Value)
+						stores = func(base ssa.Value) {
+							for _, r := range *base.Referrers() {
+								switch y := r.(type) {
+								case *ssa.Store:
+									if y.Addr == base {
+										walk(y.Val, depth+1)
+									}
+								case *ssa.IndexAddr:
+									if y.X == base {
+										stores(y)
+									}
+								case *ssa.FieldAddr:
+									if y.X == base {
+										stores(y)
+									}
+								}
+							}
+						}
+						stores(x)
 					case *ssa.MakeMap:
 						if !inLoop(x) {
 							bad += fmt.Sprintf("a map created outside the per-level loop is stored under several levels (%s); ", x.String())
